@@ -151,13 +151,19 @@ func run(t *testing.T, tape *simrt.Tape) *hx.Outcome {
 		type relEv struct {
 			seq uint64
 			img int
+			at  time.Duration
 		}
 		var relZero []relEv // releases that brought a use count to zero
 		lookupInv := map[string]uint64{}
 		faultedImage := map[int]bool{} // a lookup of this image failed while registry faults were on
 		lastFault := map[int]uint64{}  // ... and when (event sequence number)
+		lastFaultAt := map[int]time.Duration{}
 		imgUses := map[int]int{}       // outstanding uses per image (all layers)
 		var imgZero []relEv            // releases that brought an image's total use count to zero
+		strays := 0
+		// with a single client there is no interleaving: a use taken right after a successful lookup of the
+		// layer's diff is a use of a resolved, cached layer, and releasing it must succeed
+		strict := map[[2]int]bool{}
 		// model: outstanding uses per (image, layer)
 		count := map[[2]int]int{}
 		layerNode := func(ii, li int, tocName string) (fusefs.InodeEmbedder, fusefs.InodeEmbedder, syscall.Errno) {
@@ -272,6 +278,7 @@ func run(t *testing.T, tape *simrt.Tape) *hx.Outcome {
 						if errno != 0 {
 							faultedImage[ii] = true
 							lastFault[ii] = s.Seq()
+							lastFaultAt[ii] = s.Now()
 							if calm {
 								overl := false
 								for _, r := range relZero {
@@ -298,6 +305,12 @@ func run(t *testing.T, tape *simrt.Tape) *hx.Outcome {
 							}
 						}
 					case op == 4 || op == 5: // use
+						if nClients == 1 && count[key] == 0 {
+							if _, errno := lookup(t, ii, li, "diff"); errno != 0 {
+								continue
+							}
+							strict[key] = true
+						}
 						toc := images[ii].layers[li].TOCDigest.String()
 						_, ln, errno := layerNode(ii, li, toc)
 						if errno != 0 {
@@ -312,6 +325,18 @@ func run(t *testing.T, tape *simrt.Tape) *hx.Outcome {
 						s.Event("%s use img%d layer%d -> %d", t.Label, ii, li, count[key])
 					default: // release one of our uses
 						if mine[key] == 0 {
+							// a stray release of a digest the image does not have: it may be refused, and it must not
+							// disturb the uses that are outstanding
+							if count[key] == 0 && dr(3) == 0 {
+								// (always a digest the image does not have: releasing a real layer one does not
+								// hold would take away another client's use, which no client may do)
+								toc := digest.FromString(fmt.Sprintf("stray-%d-%d", k, i)).String()
+								if rn, _, _ := layerNode(ii, li, images[ii].layers[li].TOCDigest.String()); rn != nil {
+									errno := rn.(fusefs.NodeRmdirer).Rmdir(ctx, toc)
+									s.Event("%s stray release on img%d -> %v", t.Label, ii, errno)
+									strays++
+								}
+							}
 							continue
 						}
 						toc := images[ii].layers[li].TOCDigest.String()
@@ -320,16 +345,24 @@ func run(t *testing.T, tape *simrt.Tape) *hx.Outcome {
 							continue
 						}
 						if count[key] == 1 {
-							relZero = append(relZero, relEv{s.Seq(), ii})
+							relZero = append(relZero, relEv{s.Seq(), ii, s.Now()})
 						}
-						rn.(fusefs.NodeRmdirer).Rmdir(ctx, toc)
+						// (the store answers a successful release with ENOENT; releasing a use of a layer that was
+						// never resolved reports an error after doing the bookkeeping, which is not judged)
+						if errno := rn.(fusefs.NodeRmdirer).Rmdir(ctx, toc); errno != syscall.ENOENT && calm && nClients == 1 && strict[key] {
+							s.Fail("release-failed", "releasing a use of (img%d, layer %d) that this client holds (outstanding uses of it: %d; the layer is resolved) failed: %v", ii, li, count[key], errno)
+							return
+						}
 						if count[key] == 1 {
-							relZero = append(relZero, relEv{s.Seq(), ii})
+							strict[key] = false
+						}
+						if count[key] == 1 {
+							relZero = append(relZero, relEv{s.Seq(), ii, s.Now()})
 						}
 						count[key]--
 						mine[key]--
 						if imgUses[ii]--; imgUses[ii] == 0 {
-							imgZero = append(imgZero, relEv{s.Seq(), ii})
+							imgZero = append(imgZero, relEv{s.Seq(), ii, s.Now()})
 						}
 						releases++
 						s.Event("%s release img%d layer%d -> %d", t.Label, ii, li, count[key])
@@ -346,15 +379,21 @@ func run(t *testing.T, tape *simrt.Tape) *hx.Outcome {
 						toc := images[key[0]].layers[key[1]].TOCDigest.String()
 						if rn, _, _ := layerNode(key[0], key[1], toc); rn != nil {
 							if count[key] == 1 {
-								relZero = append(relZero, relEv{s.Seq(), key[0]})
+								relZero = append(relZero, relEv{s.Seq(), key[0], s.Now()})
 							}
-							rn.(fusefs.NodeRmdirer).Rmdir(ctx, toc)
+							if errno := rn.(fusefs.NodeRmdirer).Rmdir(ctx, toc); errno != syscall.ENOENT && calm && nClients == 1 && strict[key] {
+								s.Fail("release-failed", "releasing a use of (img%d, layer %d) that this client holds (outstanding uses of it: %d; the layer is resolved) failed: %v", key[0], key[1], count[key], errno)
+								return
+							}
 							if count[key] == 1 {
-								relZero = append(relZero, relEv{s.Seq(), key[0]})
+								strict[key] = false
+							}
+							if count[key] == 1 {
+								relZero = append(relZero, relEv{s.Seq(), key[0], s.Now()})
 							}
 							count[key]--
 							if imgUses[key[0]]--; imgUses[key[0]] == 0 {
-								imgZero = append(imgZero, relEv{s.Seq(), key[0]})
+								imgZero = append(imgZero, relEv{s.Seq(), key[0], s.Now()})
 							}
 							releases++
 							s.Event("%s release(final) img%d layer%d -> %d", t.Label, key[0], key[1], count[key])
@@ -386,6 +425,9 @@ func run(t *testing.T, tape *simrt.Tape) *hx.Outcome {
 					if q.FaultSeq > lastFault[ii] {
 						lastFault[ii] = q.FaultSeq
 					}
+					if at := time.Duration(q.AtNs); at > lastFaultAt[ii] {
+						lastFaultAt[ii] = at
+					}
 				}
 			}
 		}
@@ -396,12 +438,15 @@ func run(t *testing.T, tape *simrt.Tape) *hx.Outcome {
 				if errno != 0 {
 					// the store forgets a failed resolution only when the image's last use is released
 					reset := false
+					// (a resolution that was in flight when the fault hit records its failure later, possibly
+					// after a release: only a release well after the last fault counts, when every fetch has
+					// timed out or finished)
 					for _, r := range imgZero {
-						if r.img == ii && r.seq > lastFault[ii] {
+						if r.img == ii && r.seq > lastFault[ii] && r.at > lastFaultAt[ii]+90*time.Second {
 							reset = true
 						}
 					}
-					s.Fail("lookup-after-release-failed", "after every use was released (faults off), looking up diff of (img%d, layer %d) failed with %v: the image is not resolved again [registry faults were injected while this image was being resolved earlier: %v; the image's uses were released down to zero after the last of them: %v]", ii, li, errno, faultedImage[ii], reset)
+					s.Fail("lookup-after-release-failed", "after every use was released (faults off), looking up diff of (img%d, layer %d) failed with %v: the image is not resolved again [registry faults were injected while this image was being resolved earlier: %v; the image's uses were released down to zero well (90 s) after the last of them: %v]", ii, li, errno, faultedImage[ii], reset)
 					return
 				}
 				if !checkDiff(mt, n, ii, li) {
